@@ -253,6 +253,12 @@ func writeEvidence(r *Result, m Meta, newF, knownF []Finding) {
 	if len(r.Samples) == 0 {
 		cov["samples"] = []interface{}{"(no obligations)"}
 	}
+	if r.Assumptions == nil {
+		r.Assumptions = append([]string{}, r.TrustedBase...)
+	}
+	if r.TrustedBase == nil {
+		cov["trusted_base"] = []string{}
+	}
 	if level == "proof" && r.Discharged != r.Obligations {
 		// a proof-level claim with an undischarged obligation is reported as such
 		cov["explanation"] = r.Explanation + " [NOT ALL OBLIGATIONS DISCHARGED ON THIS RUN]"
